@@ -324,8 +324,10 @@ func c14gen(kind string) func(g *G) {
 			g.Case(ops)
 		})
 		for _, b := range c13bigCases(g) {
-			if len(b.left) > 1500 && !g.Thorough() {
-				continue // the quick tier formats files of up to 1058 lines (four-digit line numbers included)
+			if !g.Thorough() && (len(b.left) > 1500 || len(b.left) >= 1000 && !strings.HasPrefix(b.left[0], "L")) {
+				// the quick tier formats files of up to 1058 unique lines (four-digit line numbers included); the
+				// 1000-line files over two or three different lines stress New (C13), not the formats
+				continue
 			}
 			g.Each(c14bigOps(g, b, kind))
 		}
